@@ -3075,10 +3075,15 @@ PPL::Grid::wrap_assign(const Variables_Set& vars,
                || (f_n == wrap_frequency)) {
         // In these cases, `x' can only take a unique (ie constant)
         // value.
-        if (r == UNSIGNED && v_n < 0) {
-          // `v_n' is the value closest to 0 and may be negative.
+        // `v_n' may be any representative with |v_n| < f_n: take the
+        // one in [min_value, min_value + f_n), the only one that can
+        // be in the range of the bounded integer type.
+        v_n -= min_value;
+        v_n %= f_n;
+        if (v_n < 0) {
           v_n += f_n;
         }
+        v_n += min_value;
         unconstrain(x);
         add_constraint(x == v_n);
       }
